@@ -336,7 +336,7 @@ End DONE.
 Module POOL.
   (* script op: o_code 0 = Get (o_a <> 0: the create callback panics if this Get calls it, o_b = gate
      inside the create callback, o_c <> 0: the destroy callback panics if this Get calls it);
-     1 = Put of the most recently obtained resource still held.
+     1 = Put of the most recently obtained resource still held; 2 = Put(nil).
      Both callbacks run under p.lock; `defer p.lock.Unlock()` releases it when they panic. *)
   Inductive pc :=
   | Idle
@@ -347,6 +347,7 @@ Module POOL.
   | GRelock          (* notified: re-acquire the lock inside cond.Wait       l.83 *)
   | GRet (r : nat)   (* deferred p.lock.Unlock(); return r                   l.63,74,80 *)
   | GPanic           (* deferred p.lock.Unlock(); the callback's panic reaches the caller  l.63 *)
+  | PNil             (* Put(nil): if x == nil { return }                     l.89-91 *)
   | PLock (x : nat)  (* Put: p.lock.Lock()                                   l.93 *)
   | PPush (x : nat)  (* p.head = &node{x, p.head, timex.Now()}               l.96-100 *)
   | PSignal          (* p.cond.Signal()                                      l.101 *)
@@ -396,6 +397,9 @@ Module POOL.
                 | 0 => Some (mk (lock s) (created s) (head s) (waiters s) (nextres s) (now s) (open s)
                                 (upd (ts s) t (mkt GLock (o_a o) (o_b o) (o_c o) rest (t_res x) (t_held x)))
                                 (mkev t KInv 0 0 (now s) 0 :: trace s) (loc s) (ncreate s) (ndestroy s) (nleak s))
+                | 2 => Some (mk (lock s) (created s) (head s) (waiters s) (nextres s) (now s) (open s)
+                                (upd (ts s) t (mkt PNil 0 0 0 rest (t_res x) (t_held x)))
+                                (mkev t KInv 2 0 (now s) 0 :: trace s) (loc s) (ncreate s) (ndestroy s) (nleak s))
                 | _ =>
                     match t_held x with
                     | [] => Some (mk (lock s) (created s) (head s) (waiters s) (nextres s) (now s) (open s)
@@ -451,6 +455,10 @@ Module POOL.
             Some (mk None (created s) (head s) (waiters s) (nextres s) (now s) (open s)
                      (upd (ts s) t (mkt Idle (t_cpan x) (t_gate x) (t_dpan x) (t_todo x) ((0, 2) :: t_res x) (t_held x)))
                      (mkev t KRet 0 0 (now s) 2 :: trace s) (loc s) (ncreate s) (ndestroy s) (nleak s))
+        | PNil =>   (* a nil is not a resource: nothing is touched, no slot is given back *)
+            Some (mk (lock s) (created s) (head s) (waiters s) (nextres s) (now s) (open s)
+                     (upd (ts s) t (mkt Idle (t_cpan x) (t_gate x) (t_dpan x) (t_todo x) ((0, 0) :: t_res x) (t_held x)))
+                     (mkev t KRet 2 0 (now s) 0 :: trace s) (loc s) (ncreate s) (ndestroy s) (nleak s))
         | PLock r => match lock s with None => setp (Some t) (PPush r) | Some _ => None end
         | PPush r =>
             Some (mk (lock s) (created s) ((r, now s) :: head s) (waiters s) (nextres s) (now s) (open s)
@@ -483,11 +491,13 @@ End POOL.
    the body of the fn passed to it is transcribed action by action, with m.lock as a
    readers/writer lock. *)
 Module RM.
-  (* script op: o_code 0 = Get (o_a key, o_b gate inside create, o_c = 1: create returns an error,
+  (* script op: o_code 2 = Get that is held up by gate o_b just before it enters m.singleFlight.Do;
+     o_code 0 = Get (o_a key, o_b gate inside create, o_c = 1: create returns an error,
      o_c = 2: create panics -- no defer of fn is active then, the flight's cleanup runs and the panic
      reaches the caller of Get; o_c = 3: create succeeds but the resource's Close() will fail); 1 = Close *)
   Inductive pc :=
   | Idle
+  | SGate              (* about to call m.singleFlight.Do (o_code 2: the call is held up at this point by gate o_b) *)
   | SReg               (* singleFlight.Do: join the key's flight or register a new one      l.44 *)
   | SWait (c : nat)    (* joined: wait for the flight; take its val/err; val.(io.Closer)    l.44,63-67 *)
   | FRLock (c : nat)   (* fn: m.lock.RLock()                                                l.45 *)
@@ -555,9 +565,15 @@ Module RM.
             | o :: rest =>
                 match o_code o with
                 | 0 => ret (mkt SReg (o_a o) (o_b o) (o_c o) 0 0 rest (t_res x)) (mkev t KInv 0 (o_a o) 0 0)
+                | 2 => ret (mkt SGate (o_a o) (o_b o) (o_c o) 0 0 rest (t_res x)) (mkev t KInv 0 (o_a o) 0 0)
                 | _ => ret (mkt CLock 0 0 0 0 0 rest (t_res x)) (mkev t KInv 1 0 0 0)
                 end
             end
+        | SGate =>
+            (* nothing of Get has happened yet: the "is it already there?" lookup is part of the flight's fn *)
+            if gate_open (open s) (t_gate x)
+            then go (readers s) (writer s) (mkt SReg (t_key x) 0 (t_fail x) (t_rv x) (t_re x) (t_todo x) (t_res x))
+            else None
         | SReg =>
             match alookup Nat.eqb (t_key x) (calls s) with
             | Some c => go (readers s) (writer s) (setpc x (SWait c))
@@ -1067,3 +1083,17 @@ Module DONEL.
     | _ => None
     end.
 End DONEL.
+
+(* ============================================================== onceguard.go over long histories
+   The code keeps a FLAG (CompareAndSwapUint32(&done, 0, 1)); [wrap = 0] models it.  [wrap = S w]
+   is the tempting variant "count the calls, the first one wins" (AddUint32(&done, 1) == 1) with a
+   counter that wraps after S w calls (2^32 for a uint32; any modulus shows the point). *)
+Module ONCEC.
+  Definition take (wrap : nat) (c : nat) : nat * bool :=
+    match wrap with
+    | 0 => (1, Nat.eqb c 0)                           (* CAS(0,1): succeeds iff the flag is clear; the flag ends up set *)
+    | S w => let c' := Nat.modulo (S c) (S w) in (c', Nat.eqb c' 1)
+    end.
+  Fixpoint takes (wrap : nat) (c : nat) (n : nat) : list bool :=
+    match n with O => [] | S k => let (c', b) := take wrap c in b :: takes wrap c' k end.
+End ONCEC.
